@@ -20,9 +20,9 @@ var (
 	mkC03 = func() []*sim.Mon { return []*sim.Mon{sim.MonC03()} }
 	mkC04 = func() []*sim.Mon { return []*sim.Mon{sim.MonC04()} }
 	mkC10 = func() []*sim.Mon { return []*sim.Mon{sim.MonC10()} }
-	shC01 = Shape{EquivFocus: 35, LockPressure: 20}
+	shC01 = Shape{EquivFocus: 35, LockPressure: 20, MaybeChanging: 12}
 	shC02 = Shape{ShareBound: 25, EquivFocus: 20}
-	shC03 = Shape{}
+	shC03 = Shape{ShareBound: 15}
 	shC04 = Shape{MaxN: 10}
 	shC10 = Shape{}
 	mkC05 = func() []*sim.Mon { return []*sim.Mon{sim.MonC05()} }
